@@ -12,13 +12,9 @@ let rec int_of_pos = function
   | XH -> 1 | XO p -> 2 * int_of_pos p | XI p -> 2 * int_of_pos p + 1
 let int_of_n = function N0 -> 0 | Npos p -> int_of_pos p
 
-let table = [
-  ("C03", c03_run_line);
-  ("C17", c17_run_line);
-]
 
 let () =
-  let f = List.assoc Sys.argv.(1) table in
+  let f = List.assoc Sys.argv.(1) Table.table in
   let buf = Buffer.create 4096 in
   try
     while true do
